@@ -359,3 +359,33 @@ def check_parent_pairing(ctx, rid):
             ctx.ob(rid, f'{name}:[{" ∧ ".join(("" if pol else "not ") + src(t) for t, pol in p.tests())}]', _loc(f, f.node),
                    f'{name}: exactly one insertion into self.tokens, paired with token.parent = self', ok,
                    f'{len(ins)} insertions, {len(par)} parent stores on the path')
+
+
+def check_no_cutoff(ctx, rid, only=None):
+    """Grouping is total over every token list: the generic drivers and the passes have no early exit that
+    depends on the size or depth of the list (a silent resource limit leaves large or deeply nested input ungrouped,
+    so the tree depends on the length of the statement / on the other items of a list)."""
+    repo = ctx.repo
+    gd_cache = {}
+    for f in repo.funcs.values():
+        if f.mod.name != 'sqlparse.engine.grouping' or isinstance(f.node, ast.Lambda) or f.parent is not None:
+            continue
+        if only and f.name not in only:
+            continue
+        gd = Guards(f.node)
+        rets = [n for n in own_nodes(f.node, include_lambdas=False) if isinstance(n, ast.Return) and (n.value is None or isinstance(n.value, ast.Constant))]
+        bad = []
+        for r in rets:
+            facts = [a for a in gd.facts(r) if a[0] != '|']
+            txt = ' and '.join(e for e, p in facts)
+            if 'len(' in txt or 'depth' in txt.lower() or 'MAX' in txt or 'limit' in txt.lower():
+                bad.append((r, txt))
+        params = [p for p in f.params if 'depth' in p.lower() or 'level' in p.lower()]
+        if bad:
+            r, txt = bad[0]
+            ctx.ob(rid, f'cutoff:{f.name}', _loc(f, r), f'{f.name} has no size/depth cut-off', False,
+                   f'early `return` under `{txt}`: token lists beyond the limit are silently left ungrouped (brackets unmatched, names/aliases not joined)')
+        elif params and f.name in ('_group_matching', '_group'):
+            ctx.ob(rid, f'cutoff:{f.name}', _loc(f, f.node), f'{f.name} has no depth parameter', False, f'parameter(s) {params} track the nesting depth')
+        else:
+            ctx.ob(rid, f'cutoff:{f.name}', _loc(f, f.node), f'{f.name} processes every token list regardless of size or depth', True)
